@@ -142,7 +142,20 @@ def run_batch(batch, cc='clang', cflags=('-O0',), w2c2=None, w2c2_args=(), timeo
             f.write(gen_driver(batch, extra=driver_extra))
         rc, err, cmd = compile_driver(wd, cc, cflags, defines=defines)
         if rc != 0:
-            return {'stage': 'compile', 'rc': rc, 'stderr': err[-3000:], 'done': False, 'cmd': ' '.join(cmd)}
+            # attribute compile errors to translated functions (internal names f<index>)
+            bad = []
+            try:
+                lines = open(os.path.join(wd, 'm.c')).read().split('\n')
+                starts = [(n, re.match(r'^[A-Za-z0-9]+ f(\d+)\(', l)) for n, l in enumerate(lines)]
+                starts = [(n, int(m_.group(1))) for n, m_ in starts if m_]
+                for m_ in re.finditer(r'/m\.c:(\d+):\d+: error', err):
+                    ln = int(m_.group(1)) - 1
+                    f = [fi for n, fi in starts if n <= ln]
+                    if f and f[-1] not in bad:
+                        bad.append(f[-1])
+            except Exception:
+                pass
+            return {'stage': 'compile', 'rc': rc, 'stderr': err[-3000:], 'done': False, 'cmd': ' '.join(cmd), 'bad_funcs': bad}
         e = dict(os.environ)
         e.update(env or {})
         e.setdefault('ASAN_OPTIONS', 'detect_leaks=0:abort_on_error=0:handle_segv=0:handle_abort=0:handle_sigfpe=0:handle_sigbus=0:handle_sigill=0')
